@@ -73,6 +73,7 @@ type Pkt struct {
 	Refunded   bool
 	AckRelayer kit.Account // relayer (teleport account) that delivered the receive
 
+	Callback bool           // the sender named the counter contract as callback address
 	ViaAgent bool           // outer packet whose call data asks the agent contract to forward the tokens
 	RefundTo common.Address // agent-sent packet: address the agent refunds on failure
 	Nested   []*Pkt         // packets sent by the destination callback of this packet (observed in the receive tx)
@@ -98,6 +99,9 @@ type World struct {
 	TTok []common.Address
 	// Target[c] = plain ERC-20 used as call-data target on chain c.
 	Target []common.Address
+	// Counter is a contract installed on every chain that increments its storage slot 0 on every call; used as
+	// the sender's callback address to count how often the packet contract runs the callback.
+	Counter common.Address
 
 	Pkts     []*Pkt
 	Accepted []map[Triple]bool // per chain: triples whose receive was accepted
@@ -149,6 +153,11 @@ func NewWorldOpts(n int, seed []byte, o WorldOpts) *World {
 		c.RegisterRelayer(w.Rels[0].Acc, names, addrs0)
 		c.RegisterRelayer(w.Rels[1].Acc, names, addrs1)
 		c.RegisterRelayer(w.TSS.Acc, []string{TSSName}, []string{w.TSS.Acc.String()})
+	}
+	w.Counter = common.HexToAddress("0x00000000000000000000000000000000C0FFEE01")
+	for _, c := range w.Chains {
+		// PUSH1 0 SLOAD PUSH1 1 ADD PUSH1 0 SSTORE STOP
+		c.App.SetEVMCode(c.Ctx(), w.Counter, []byte{0x60, 0x00, 0x54, 0x60, 0x01, 0x01, 0x60, 0x00, 0x55, 0x00})
 	}
 	big1 := new(big.Int).Lsh(big.NewInt(1), 200)
 	for i, c := range w.Chains {
@@ -370,7 +379,8 @@ func (w *World) Send(s SendSpec, wantDumps bool) *SendOutcome {
 		p := kit.DecodePacket(bz)
 		pk := &Pkt{ID: len(w.Pkts), Bz: bz, P: p, T: Triple{p.SrcChain, p.DstChain, p.Sequence}, SrcIdx: s.Src, DstIdx: w.Idx(p.DstChain),
 			Token: s.Token, Amount: new(big.Int).Set(s.Amount), Fee: new(big.Int).Set(s.Fee), FeeTok: s.Token, Sender: w.Users[s.User],
-			Call: s.Call, SentAt: c.Header.Height, ViaAgent: strings.HasPrefix(s.Call, "agent:"), RefundTo: w.Users[s.User].Addr}
+			Call: s.Call, SentAt: c.Header.Height, ViaAgent: strings.HasPrefix(s.Call, "agent:"), RefundTo: w.Users[s.User].Addr,
+			Callback: s.Callback == w.Counter}
 		if common.IsHexAddress(s.Receiver) {
 			pk.RecvAdr = common.HexToAddress(s.Receiver)
 		}
@@ -475,6 +485,13 @@ func (w *World) ObservePackets(ci int, res kit.TxResult) []*Pkt {
 		out = append(out, n)
 	}
 	return out
+}
+
+// CounterValue reads how often the counter contract of chain ci has been called.
+func (w *World) CounterValue(ci int) uint64 {
+	c := w.Chains[ci]
+	v := c.App.EvmKeeper.GetState(c.Ctx(), w.Counter, common.Hash{})
+	return new(big.Int).SetBytes(v.Bytes()).Uint64()
 }
 
 // ByTriple finds an observed packet.
